@@ -716,3 +716,52 @@ func legacyUpstreamsViaLoader(c *suiteCtx) {
 	logger.SetOutput(io.Discard)
 	logger.SetErrOutput(io.Discard)
 }
+
+// cfgBoolSpellings: a boolean setting in every spelling strconv.ParseBool documents (what pflag and viper accept), as a
+// command-line flag and as an environment variable, through the real loader: it is read as the value it spells.
+// `get` reads the option back from the loaded options.
+func cfgBoolSpellings(c *suiteCtx, prop string, flags map[string]func(*options.Options) bool) {
+	spell := map[bool][]string{true: {"true", "True", "TRUE", "t", "T", "1"}, false: {"false", "False", "FALSE", "f", "F", "0"}}
+	names := make([]string, 0, len(flags))
+	for n := range flags {
+		names = append(names, n)
+	}
+	sort.Strings(names)
+	for _, name := range names {
+		for _, want := range []bool{false, true} {
+			for _, sp := range spell[want] {
+				for _, via := range []string{"flag", "env"} {
+					var args []string
+					key := "OAUTH2_PROXY_" + strings.ToUpper(tomlKey(name))
+					cfgEnvMu.Lock()
+					if via == "flag" {
+						args = []string{"--" + name + "=" + sp}
+					} else {
+						os.Setenv(key, sp)
+					}
+					o, err := loadConfiguration("", "", pflag.NewFlagSet("oauth2-proxy", pflag.ContinueOnError), args)
+					if via == "env" {
+						os.Unsetenv(key)
+					}
+					cfgEnvMu.Unlock()
+					c.casen(fmt.Sprintf("boolspell|%s|%s|%s", name, sp, via), "")
+					c.count("cfgpath:bool-spelling")
+					in := map[string]interface{}{"setting": name, "written": sp, "via": via, "args": args}
+					if via == "env" {
+						in["environment"] = key + "=" + sp
+					}
+					if err != nil {
+						in["error"] = err.Error()
+						c.violation(prop, fmt.Sprintf("the configuration loader rejects %s=%s (%s), a documented boolean spelling", name, sp, via), in)
+						continue
+					}
+					if got := flags[name](o); got != want {
+						c.violation(prop, fmt.Sprintf("%s is written %q (%s) and read as %v: the proxy runs with the opposite of what the operator configured", name, sp, via, got), in)
+					}
+				}
+			}
+		}
+	}
+	logger.SetOutput(io.Discard)
+	logger.SetErrOutput(io.Discard)
+}
